@@ -14,7 +14,12 @@ TARGETS = ["B0", "anti-D0", "K+", "f_0"]
 VALUES = ["3", "0", "0.25", "1e3", "-2", "0.0", "+1.5", ".5", "007", "2E-4", "-0"]     # zero is a value like any other
 # which of up to 4 statements declare the same name: index of the name used by statement i
 PATTERNS = [(0, 1, 2, 3), (0, 0, 1, 2), (0, 1, 0, 1), (0, 0, 0, 0), (0, 1, 1, 0), (3, 2, 1, 0), (1, 1, 2, 2), (2, 0, 2, 1)]
-R = [len(KINDS), 5, len(PATTERNS), 4, 4]
+import os as _os
+
+THOROUGH = _os.environ.get("VERIF_TIER") == "thorough"
+if THOROUGH:       # up to 6 statements of a kind, more repetition patterns
+    PATTERNS = [p + (p[0], p[2]) for p in PATTERNS] + [(0, 1, 2, 3, 0, 1), (3, 3, 2, 2, 1, 1), (0, 0, 0, 1, 1, 1), (2, 1, 2, 1, 2, 1)]
+R = [len(KINDS), 7 if THOROUGH else 5, len(PATTERNS), 4, 4]
 N = prod(R)
 
 SKELETON = ["Decay B0\n1.0 K+ pi- PHSP;\nEnddecay", "Decay D0\n0.5 K- pi+ PHSP;\n0.5 pi0 pi0 PHSP;\nEnddecay"]
